@@ -88,10 +88,23 @@ def generated_jobs(rng, thorough):
               'before 2019-05-05', 'after 3pm', 'since last Monday', 'until tomorrow', 'every Monday', 'each day at 9am',
               'Christmas', 'Thanksgiving 2018', 'Easter', 'new year\'s eve', '2 days ago', 'in 3 weeks', 'a fortnight ago',
               'Monday', 'next Friday', 'last Sunday', 'May 10', 'the 15th', 'tonight', 'this morning', 'tomorrow evening']
+    # bare-number hour ranges attached to a date: every ordered pair of hours 0..23 (ambiguous / 24-hour / straddling noon)
+    hour_tmpls = ['from %d to %d tomorrow', 'between %d and %d on May 5', 'from %d:30 to %d today', 'tomorrow %d-%d']
+    hour_exprs = []
+    for h1 in range(0, 24):
+        for h2 in range(h1 + 1, 24):
+            k = (h1 * 24 + h2)
+            hour_exprs.append(hour_tmpls[k % len(hour_tmpls)] % (h1, h2))
+            if thorough:
+                hour_exprs.append(hour_tmpls[(k + 1) % len(hour_tmpls)] % (h1, h2))
+    hour_exprs += ['from %dam to %d tomorrow' % (h, h + 5) for h in range(1, 12)] + \
+                  ['from %d to %dpm tomorrow' % (h, (h + 3) % 12 or 12) for h in range(1, 12)]
     refs = [DEFAULT_REF] + (EXTRA_REFS if thorough else EXTRA_REFS[:3])
     carriers = ['%s', 'I will be back %s .', 'schedule it for %s please']
     jobs = []
     for e in exprs:
         for r in refs:
             jobs.append(('en-us', carriers[(len(e) + r.year) % len(carriers)] % e, r))
+    for i, e in enumerate(hour_exprs):
+        jobs.append(('en-us', e, refs[i % len(refs)]))
     return jobs
